@@ -22,7 +22,7 @@ claimed = {
    ref="7 C04"),
  "C05": dict(
    text="Deductive proof, for all inputs, buffer sizes >= 1 and short-write/error behaviours of the underlying writer, that the buffered writer's accepted byte sequence (what the socket took ++ what is buffered) grows by exactly the bytes each Write reports as accepted and is unchanged by flush/Flush, including the short-write compaction path; loop invariants, no unrolling bound.",
-   note="Assumes the io.Writer contract (0<=n<=len(p), appends p[0:n], n<len(p) implies error), mathematical integers, erased logging/metrics calls; Conn.Write/HandleData framing and the pickle encoder are not yet under contract; TCP delivery and channel FIFO order are assumptions.",
+   note="Also proved: Conn.Write appends exactly line ++ newline (text mode) or one length-prefixed pickle frame (pickle mode) to the accepted byte sequence or reports an error, and every iteration of the connection's event loop HandleData keeps the writer well-formed and puts a line into the keep-safe buffer before writing it. NOT proved: the loop-level statement 'accepted bytes == concatenation of the framed lines received so far' (recursive spec function over the receive log; the invariant was not discharged and is not claimed). Assumes the io.Writer contract (0<=n<=len(p), appends p[0:n], n<len(p) implies error), mathematical integers, erased logging/metrics calls; the pickle body is the external encoder's; TCP delivery and channel FIFO order are assumptions.",
    ref="7 C05"),
  "C11": dict(
    text="Deductive proof that DispatchAggregate only calls Route.Match/Dispatch and the unroutable counter (frame: no validation, blacklist, rewriter, aggregator call, no other counter), so aggregate output cannot re-enter an aggregation for any rule set; that AddMaybe tells the table to withhold a metric exactly when drop-raw is set and the aggregation's complete filter accepts the name; and that Table.Dispatch offers the metric to aggregators in order up to and including the first consuming one and to no later aggregator and no route.",
@@ -66,6 +66,10 @@ claimed["C14"] = dict(
    text="Deductive proof of panic-freedom obligations (nil dereference, index/slice bounds, division by zero, failed type assertion, negative make, close of closed channel, explicit panic, library preconditions such as NewTicker's positive period) for the network-facing handlers Plain.Handle, Pickle.Handle and checkProtocol for every byte stream, for the relay loop, GrafanaNet.Dispatch and ConsistentHashing.Dispatch under the invariants their constructors establish, and of the constructor side of the property: destination.New, aggregator.New/NewMocked (interval, regex), clock.AlignedTick's precondition at its call site, NewWriter's size -- each either establishes the invariant or returns an error. Every other function under contract carries the same obligations inside the check of the property it serves.",
    note="Only the functions named in the evidence are covered: imperatives.Apply and the telnet/admin parser, cfg.Init*, UDP/AMQP inputs, Aggregator.run/Flush, HandleData, the Kafka/PubSub/CloudWatch routes and NewGrafanaNet's body are not under contract yet, so no claim is made for them; externs are assumed not to panic when their stated preconditions hold; memory exhaustion is out of scope.",
    ref="7 C14")
+claimed["C07"] = dict(
+   text="Deductive proof of the per-hop conservation lemmas the spooling guarantee rests on, each a necessary condition of the property on the real code: a connection dropped by the relay loop while spooling is on is handed to collectRedo (per-iteration contract over the spawn log); getRedo returns everything kept safe plus every line still queued for the connection, each drained line being added to the keep-safe buffer (loop invariant, for any number of queued lines); GetAll/Add keep every entry; a keep-safe tick never discards a line of the current period; Ingest sends all redo lines to the spool's bulk input in order; Writer forwards every line from either spool input to the queue buffer; Buffer hands every buffered line to DiskQueue.Put; a line that cannot be spooled is counted slow-spool; an unspooled line is read only while a connection is up and is handed to the connection or counted slow-conn.",
+   note="The property itself -- at-least-once delivery after recovery for every outage/recovery schedule -- composes these hops across six goroutines and depends on timing (outage detection latency vs. the 10 s keep-safe window, a concurrent keep-safe tick during getRedo) and on C09 for the disk queue: that composition is a whole-history, schedule- and time-dependent argument that no contract within reach decides, so it is NOT decided here; only the listed lemmas are. Channel ownership (channels never closed by others) is an assumed loop invariant; collectRedo, clearRedo, DiskQueue.Put, Spool.Close are trusted; Buffer ignoring Put's error (disk failure) is outside C07's fault model and noted in DESIGN.md.",
+   ref="7 C07")
 reasons = {
  "C08": "crash-point quantifier needs a crash semantics for the file system, a recovery function and a crash invariant at every intermediate state (crash Hoare logic); no contract within reach of the VC generator written here expresses it (DESIGN.md section 11)",
 }
